@@ -372,3 +372,5 @@ _quick("C06", "C06_sweeploop", "one real round of the expiry sweeper loop LockDB
 _quick("C14", "C14_textreply", "three LOCK / UNLOCK pairs on one text connection with COUNT in {1,2,7} and RCOUNT in {1,3,5} chosen per pair: every reply, parsed back with the real text parser, carries its own request's LockId, COUNT and RCOUNT (the first reply is built fresh, later ones reuse a cached result object)", ["-witness", "50"])
 
 _quick("C17", "C17_zerowaiter", "a holder and 1..2 queued requests of which the first, the second or both have Expried 0 (granted, such a request is answered SUCCED and holds nothing); the holder unlocks, the queue is served, whatever holds is released, wheel swept: LockedCount and WaitCount equal the census after each phase and are zero at the end", ["-witness", "1"])
+
+_quick("C10", "C10_probable", "the same 0..3 holds (symbolic Count of the oldest) on a leader instance and, from the stream, on a follower instance; the same request (concurrent-check flag, Timeout 0, symbolic Count, with or without wait-when-unlocked) to the leader's LockDB.Lock and to the follower's LockDB.CheckProbableLock: whenever the follower answers on its own, its answer is the leader's", ["-witness", "1"], reach=["end", "answered-locally"])
